@@ -668,43 +668,55 @@ def addMetadataComments (d : Fields) (md : List R) : Res Fields := do
     pure (setKey s%"__comments__" (.dict cd) d)
   else pure d
 
+/-- `_save_attr_comments`: the node's comments (possibly an empty list) are always stored -/
+def attrCom (cm : Option (List Str)) : R → Res R
+  | .adict kvs => .ok (.adict (setAV comKey (.j (commentsJ cm)) kvs))
+  | _ => .error .typeError
+
+/-- `_save_projection_comments`: stored only when there are comments -/
+def projCom (cm : Option (List Str)) : R → Res R
+  | .adict kvs => .ok (if (cm.getD []).isEmpty then .adict kvs else .adict (setAV comKey (.j (commentsJ cm)) kvs))
+  | _ => .error .typeError
+
+/-- `_save_composite_comments`: `xs'` are the (already processed) children of the composite tree -/
+def compCom (cm : Option (List Str)) (xs' : List R) : R → Res R
+  | .cdict d =>
+    let d1 := if hasKey comKey d then d else setKey comKey (.dict []) d
+    let d2 := if (cm.getD []).isEmpty then d1 else
+      match lookup comKey d1 with
+      | some (.dict c) => setKey comKey (.dict (setKey s%"__type__" (commentsJ cm) c)) d1
+      | _ => d1
+    if lookup s%"__type__" d2 = some (.str s%"metadata") then
+      match xs' with
+      | .tree _ _ md :: _ => (match addMetadataComments d2 md with | .ok d3 => .ok (.cdict d3) | .error e => .error e)
+      | _ => .error .attributeError
+    else .ok (.cdict d2)
+  | _ => .error .typeError
+
+/-- the call-back `CommentsTransformer.<data>` on a node whose children are already processed -/
+def comNode (cfg : Cfg) (data : Str) (cm : Option (List Str)) (xs' : List R) : Res R :=
+  if data = s%"attr" then
+    match mainT cfg (.tree data cm xs') with | .ok r => attrCom cm r | .error e => .error e
+  else if data = s%"projection" then
+    match mainT cfg (.tree data cm xs') with | .ok r => projCom cm r | .error e => .error e
+  else if data = s%"composite" then
+    match mainT cfg (.tree data cm xs') with | .ok r => compCom cm xs' r | .error e => .error e
+  else .ok (.tree data cm xs')
+
 mutual
 /-- `CommentsTransformer(mapfile_transformer).transform(tree)` (in place, bottom-up) -/
 def comT (cfg : Cfg) : R → Res R
-  | .tree data cm xs => do
-      let xs' ← comTL cfg xs
-      if data = s%"attr" then
-        match ← mainT cfg (.tree data cm xs') with
-        | .adict kvs => pure (.adict (setAV s%"__comments__" (.j (commentsJ cm)) kvs))
-        | _ => .error .typeError
-      else if data = s%"projection" then
-        match ← mainT cfg (.tree data cm xs') with
-        | .adict kvs =>
-          if (cm.getD []).isEmpty then pure (.adict kvs)
-          else pure (.adict (setAV s%"__comments__" (.j (commentsJ cm)) kvs))
-        | _ => .error .typeError
-      else if data = s%"composite" then
-        match ← mainT cfg (.tree data cm xs') with
-        | .cdict d =>
-          let d := if hasKey s%"__comments__" d then d else setKey s%"__comments__" (.dict []) d
-          let d := if (cm.getD []).isEmpty then d else
-            match lookup s%"__comments__" d with
-            | some (.dict c) => setKey s%"__comments__" (.dict (setKey s%"__type__" (commentsJ cm) c)) d
-            | _ => d
-          if lookup s%"__type__" d = some (.str s%"metadata") then
-            match xs' with
-            | .tree _ _ md :: _ => do pure (.cdict (← addMetadataComments d md))
-            | _ => .error .attributeError
-          else pure (.cdict d)
-        | _ => .error .typeError
-      else pure (.tree data cm xs')
+  | .tree data cm xs =>
+    match comTL cfg xs with
+    | .ok xs' => comNode cfg data cm xs'
+    | .error e => .error e
   | x => .ok x
 def comTL (cfg : Cfg) : List R → Res (List R)
   | [] => .ok []
-  | x :: r => do
-      let x' ← comT cfg x
-      let r' ← comTL cfg r
-      pure (x' :: r')
+  | x :: r =>
+    match comT cfg x with
+    | .error e => .error e
+    | .ok x' => (match comTL cfg r with | .ok r' => .ok (x' :: r') | .error e => .error e)
 end
 
 /-- `MapfileToDict(include_position, include_comments).transform(tree)` -/
@@ -755,6 +767,43 @@ def shapeItemsB : List R → Bool
   | [] => true
   | x :: r => shapeItemB x && shapeItemsB r
 end
+
+def comNames : List Str := [s%"attr", s%"projection", s%"composite"]
+
+mutual
+/-- a value subtree: no block, key/value, attr or projection node inside, no already transformed dict -/
+def plainT : R → Bool
+  | .tree data _ xs => !comNames.contains data && !flagNames.contains data && plainTL xs
+  | .tok _ => true
+  | .str _ => true
+  | .seq _ xs => plainTL xs
+  | .adict _ => false
+  | .cdict _ => false
+def plainTL : List R → Bool
+  | [] => true
+  | x :: r => plainT x && plainTL r
+end
+
+mutual
+/-- the shapes of block items for the two-pass (include_comments) pipeline: as `shapeItemB`, with value subtrees free
+of attr / projection nodes -/
+def shapeCItemB : R → Bool
+  | .tree data _ xs =>
+    if data = s%"composite" then
+      match xs with
+      | [.tree d2 _ ys] => kvNames.contains d2 && plainTL ys
+      | [ty, .tree b _ items] => (b == s%"composite_body") && plainT ty && shapeCItemsB items
+      | _ => false
+    else (attrNames.contains data || kvNames.contains data) && plainTL xs
+  | _ => false
+def shapeCItemsB : List R → Bool
+  | [] => true
+  | x :: r => shapeCItemB x && shapeCItemsB r
+end
+
+def shapeCRootB : R → Bool
+  | .tree data cm xs => if data = s%"start" then shapeCItemsB xs else shapeCItemB (.tree data cm xs)
+  | _ => false
 
 /-- the root of a parsed (canonized) document: `start` over grammar-shaped blocks, or one such block (SYMBOLSET) -/
 def shapeRootB : R → Bool
